@@ -46,3 +46,28 @@ theorem C10_round_trip (ls : List Raw) (hv : ∀ r ∈ ls, r.Valid) (ss : List S
   exact ⟨m', hb', m, by rw [C10_involutive]; exact hb, rfl⟩
 
 end CF
+
+namespace CF
+
+/-- `C10_machine` for whole intervals instead of single bases: for any request `iv` on the reference side
+    and any request `jv` on the query side, the pairings `x ↦ y` of lifting `iv` whose image lies in `jv`
+    are exactly the reversed pairings `y ↦ x` of lifting `jv` in the exchanged machine whose image lies
+    in `iv`. -/
+theorem C10_machine_intervals (ls : List Raw) (hv : ∀ r ∈ ls, r.Valid) (ss : List Sec) (hw : WFFile ls ss)
+    (m : Machine) (hb : buildL ls = .ok m) :
+    ∃ m', buildL (ls.map Raw.swap) = .ok m' ∧
+      ∀ (iv jv : Interval), iv.WF → jv.WF → ∀ x y : Base,
+        ((basePairs (liftL m iv) x y ∧ jv.hasBase y) ↔ (basePairs (liftL m' jv) y x ∧ iv.hasBase x)) := by
+  have hw' := C10_swap_wf ls ss hw
+  have hv' := C10_swap_valid ls hv
+  obtain ⟨m', hb'⟩ := (C03_iff _ hv').2 ⟨_, hw'⟩
+  refine ⟨m', hb', ?_⟩
+  intro iv jv hiv hjv x y
+  rw [lift_char ls hv ss hw m hb iv hiv, lift_char _ hv' _ hw' m' hb' jv hjv]
+  constructor
+  · rintro ⟨⟨h, hx⟩, hy⟩
+    exact ⟨⟨(C10_swap_aligned ss x y).1 h, hy⟩, hx⟩
+  · rintro ⟨⟨h, hy⟩, hx⟩
+    exact ⟨⟨(C10_swap_aligned ss x y).2 h, hx⟩, hy⟩
+
+end CF
